@@ -226,6 +226,8 @@ pub fn emit_wordop(a: &Args, out: &mut Out) {
         };
         let (xv, yv) = (pickv(&mut rng), pickv(&mut rng));
         let (xm, ym) = (mask(&mut rng, 4), if form.len() > 3 { 0xFFFF } else { mask(&mut rng, 4) });
+        // every fourth round of the forms: two independent words that happen to be equal (same value, same mask)
+        let (yv, ym) = if form.len() == 3 && (k / 12) % 4 == 3 { (xv, xm) } else { (yv, ym) };
         let (x, y) = (wd(xv, xm), wd(yv, ym));
         let r = js::guard(|| apply(form, x, y));
         let rec = match r {
